@@ -110,11 +110,20 @@ class Bus:
         self.taps = []                   # fn(frame) at send time
         self.rx_exc = []                 # exceptions escaping a node's handler (harness nodes only)
         self.ghost = None
+        self.capture = None              # list: frames sent while probing are captured, not transmitted
+        self.cap = 20000                 # frame storm guard: beyond this the bus goes dead and the run is flagged
+        self.storm = False
 
     def send(self, node, can_id, ext, data, fd=False, injected=False):
         w = self.w
+        if self.capture is not None:
+            self.capture.append(Frame(-1, w.now, node.name, can_id, ext, data, fd))
+            return
         n = len(self.log)
         node.last_tx_t = w.now
+        if len(self.log) >= self.cap:
+            self.storm = True
+            return
         if node.silent_from is not None and n >= node.silent_from:
             node.suppressed.append((w.now, can_id, data))
             return
